@@ -51,10 +51,21 @@ def clean_pts(rng, dim):
 
 def gen_curve(rng, dim):
     pts, scale = clean_pts(rng, dim)
+    neartol = rng.random() < 0.15
+    if neartol:
+        # consecutive vertices 1.2 - 1.7 tolerances apart along the coordinate axes: which of them survive the de-duplication must
+        # not depend on the frame (a distance decides, not the coordinates one by one)
+        scale = rng.choice([1.0, 10.0])
+        tol = 1e-3 * scale
+        p = [rng.uniform(-1, 1) * scale for _ in range(dim)]
+        pts = [list(p)]
+        for i in range(rng.choice([10, 25, 40])):
+            p[i % dim] += rng.uniform(1.2, 1.7) * tol
+            pts.append(list(p))
     qs = [[rng.uniform(-2, 2) * scale for _ in range(dim)] for _ in range(3)]
     qs.append([a + 1e-3 * scale for a in pts[len(pts) // 2]])
     fs = [0.0, 1.0, rng.random(), rng.random(), 0.5]
-    c = {"k": "c03.curve%d" % dim, "pts": pts, "tol": 1e-6 * scale, "qs": qs, "fs": fs, "scale": scale}
+    c = {"k": "c03.curve%d" % dim, "pts": pts, "tol": 1e-3 * scale if neartol else 1e-6 * scale, "qs": qs, "fs": fs, "scale": scale}
     if dim == 2:
         closed = rng.random() < 0.4 and len(pts) >= 3
         c.update({"closed": closed, "iso": rnd_iso2(rng), "n": [rng.uniform(-1, 1), rng.uniform(0.1, 1)]})
